@@ -1667,7 +1667,9 @@ static void vi(void)
 						free(ln);
 						ln = ln2;
 					}
-					if (ex_command(ln) == 0 && strcmp(ln, ":w") != 0)
+					/* commands before a failing one may have changed the buffer */
+					ex_command(ln);
+					if (strcmp(ln, ":w") != 0)
 						mod = VC_ALL;
 					reg_put(':', ln, 1);
 				}
